@@ -53,41 +53,116 @@ Lemma firstn_app_len {A} (l m : list A) : firstn (length l) (l ++ m) = l.
 Proof. induction l as [|a l IH]; [destruct m; reflexivity|]. cbn. rewrite IH. reflexivity. Qed.
 
 Local Notation lex := (lex C tb is_literal).
+Lemma lex_cons fuel c tl : lex (S fuel) (c :: tl) =
+    (if N.eqb c SPACE then lex fuel tl
+    else if N.eqb c LPAR then let '(evs, fin) := lex fuel tl in (EOpen :: evs, fin)
+    else if N.eqb c RPAR then let '(evs, fin) := lex fuel tl in (EClose :: evs, fin)
+    else if N.eqb c COMMA then let '(evs, fin) := lex fuel tl in (EComma :: evs, fin)
+    else if N.eqb c LBRACE then
+      let name := take_while (fun c => negb (N.eqb c RBRACE)) tl in
+      let '(evs, fin) := lex fuel (skipn (S (length name)) tl) in (ETok (TVar name) :: evs, fin)
+    else match is_literal (c :: tl) with
+    | Some n =>
+        match lit C (firstn n (c :: tl)) with
+        | None => ([], Some E_LITERAL)
+        | Some d =>
+            match n with
+            | O => ([ETok (TNum d)], None)
+            | _ => let '(evs, fin) := lex fuel (skipn n (c :: tl)) in (ETok (TNum d) :: evs, fin)
+            end
+        end
+    | None =>
+      match find_ops tb (c :: tl) with
+      | Some k =>
+          let t := if oconst (op_of tb k) then TNum (cst C k) else TOp k in
+          match length (repr (op_of tb k)) with
+          | O => ([ETok t], None)
+          | n => let '(evs, fin) := lex fuel (skipn n (c :: tl)) in (ETok t :: evs, fin)
+          end
+      | None =>
+        match match_var_name (c :: tl) with
+        | Some v => let '(evs, fin) := lex fuel (skipn (length v) (c :: tl)) in (ETok (TVar v) :: evs, fin)
+        | None => ([], Some E_TOKENIZE)
+        end
+      end
+    end).
+Proof. reflexivity. Qed.
+
+(* the lexer reads the tokens of a spaced prefix and goes on with whatever follows (two units of fuel per token) *)
+Lemma lex_spaced_app (s' : str) : forall (ts : list (token D)) fuel, Forall lexable ts ->
+  lex (2 * length ts + fuel) (stext ts ++ s') = (let '(evs, fin) := lex fuel s' in (map event_of_token ts ++ evs, fin)).
+Proof.
+  induction ts as [|t ts IH]; intros fuel HF; [cbn [length Nat.mul Nat.add stext flat_map app map]; destruct (lex fuel s'); reflexivity|].
+  inversion HF as [|? ? Ht Hts]; subst.
+  assert (Est : stext (t :: ts) ++ s' = ttext t ++ SPACE :: (stext ts ++ s')) by (unfold stext; cbn [flat_map]; rewrite <- !app_assoc; reflexivity).
+  rewrite Est. clear Est.
+  replace (2 * length (t :: ts) + fuel) with (S (S (2 * length ts + fuel))) by (cbn [length]; lia).
+  assert (Hsp : lex (S (2 * length ts + fuel)) (SPACE :: (stext ts ++ s')) = (let '(evs, fin) := lex fuel s' in (map event_of_token ts ++ evs, fin))).
+  { rewrite lex_cons. change (N.eqb SPACE SPACE) with true. cbn match. exact (IH fuel Hts). }
+  destruct (lex fuel s') as [evs fin] eqn:El.
+  destruct t as [d| | |k|x]; cbn [ttext lexable map event_of_token] in *.
+  - destruct Ht as ((c & tl & Es & Hc) & Hl & Hlit). destruct (special_false c Hc) as (H1 & H2 & H3 & H4 & H5).
+    rewrite Es. cbn [app]. rewrite lex_cons, H1, H2, H3, H4, H5.
+    change (c :: tl ++ SPACE :: stext ts ++ s') with ((c :: tl) ++ SPACE :: (stext ts ++ s')). rewrite <- Es, (Hl (stext ts ++ s')), firstn_app_len, Hlit.
+    destruct (length (show C d)) as [|n] eqn:En; [rewrite Es in En; discriminate|]. rewrite <- En, skipn_app_len, Hsp. reflexivity.
+  - cbn [app]. rewrite lex_cons. change (N.eqb LPAR SPACE) with false. change (N.eqb LPAR LPAR) with true. cbn match. rewrite Hsp. reflexivity.
+  - cbn [app]. rewrite lex_cons. change (N.eqb RPAR SPACE) with false. change (N.eqb RPAR LPAR) with false. change (N.eqb RPAR RPAR) with true. cbn match. rewrite Hsp. reflexivity.
+  - destruct Ht as ((c & tl & Es & Hc) & Hl & Hf & Hconst). destruct (special_false c Hc) as (H1 & H2 & H3 & H4 & H5).
+    rewrite Es. cbn [app]. rewrite lex_cons, H1, H2, H3, H4, H5.
+    change (c :: tl ++ SPACE :: stext ts ++ s') with ((c :: tl) ++ SPACE :: (stext ts ++ s')). rewrite <- Es, (Hl (stext ts ++ s')), (Hf (stext ts ++ s')), Hconst.
+    destruct (length (repr (op_of tb k))) as [|n] eqn:En; [rewrite Es in En; discriminate|]. rewrite <- En, skipn_app_len, Hsp. reflexivity.
+  - cbn [app]. rewrite lex_cons.
+    change (N.eqb LBRACE SPACE) with false. change (N.eqb LBRACE LPAR) with false. change (N.eqb LBRACE RPAR) with false.
+    change (N.eqb LBRACE COMMA) with false. change (N.eqb LBRACE LBRACE) with true. cbn match.
+    rewrite <- app_assoc. cbn [app]. rewrite (take_until_brace x _ Ht).
+    replace (skipn (S (length x)) (x ++ RBRACE :: SPACE :: stext ts ++ s')) with (SPACE :: (stext ts ++ s')).
+    2:{ clear. induction x as [|c x IHx]; [reflexivity|exact IHx]. }
+    rewrite Hsp. reflexivity.
+Qed.
+
+Lemma stext_len (ts : list (token D)) : Forall lexable ts -> 2 * length ts <= length (stext ts).
+Proof.
+  induction 1 as [|t ts Ht _ IH]; [cbn; lia|]. unfold stext in *. cbn [flat_map length]. rewrite !app_length. cbn [length].
+  assert (1 <= length (ttext t)); [|lia].
+  destruct t as [d| | |k|x]; cbn [ttext lexable length] in *; try lia.
+  - destruct Ht as ((c & tl & Es & _) & _). rewrite Es. cbn. lia.
+  - destruct Ht as ((c & tl & Es & _) & _). rewrite Es. cbn. lia.
+Qed.
 Theorem tokenize_spaced (ts : list (token D)) : Forall lexable ts -> tokenize C tb is_literal (stext ts) = Ok ts.
 Proof.
   intros HF. rewrite (tokenize_factors C tb is_literal).
-  (* the fuel of tokenize is S (length s): the lexer needs one step per character *)
-  assert (Hlex : forall fuel, length (stext ts) < fuel -> lex fuel (stext ts) = (map event_of_token ts, None)).
-  { clear -HF. induction ts as [|t ts IH]; intros fuel Hfuel; [destruct fuel; [cbn in Hfuel; lia|reflexivity]|].
-    inversion HF as [|? ? Ht Hts]; subst.
-    assert (Est : stext (t :: ts) = ttext t ++ SPACE :: stext ts) by (unfold stext; cbn [flat_map]; rewrite <- app_assoc; reflexivity).
-    rewrite Est in *. clear Est.
-    assert (Hsp : forall f, length (stext ts) < f -> lex (S f) (SPACE :: stext ts) = (map event_of_token ts, None)).
-    { intros f Hf. cbn [CommaRewrite.lex]. change (N.eqb SPACE SPACE) with true. cbn. exact (IH Hts f Hf). }
-    rewrite app_length in Hfuel. cbn [length] in Hfuel.
-    destruct t as [d| | |k|x]; cbn [ttext lexable map event_of_token] in *.
-    - destruct Ht as ((c & tl & Es & Hc) & Hl & Hlit). destruct (special_false c Hc) as (H1 & H2 & H3 & H4 & H5).
-      destruct fuel as [|fuel]; [lia|]. cbn [CommaRewrite.lex]. rewrite Es. cbn [app]. rewrite H1, H2, H3, H4, H5.
-      change (c :: tl ++ SPACE :: stext ts) with ((c :: tl) ++ SPACE :: stext ts). rewrite <- Es, (Hl (stext ts)), firstn_app_len, Hlit.
-      destruct (length (show C d)) as [|n] eqn:En; [rewrite Es in En; discriminate|]. rewrite <- En, skipn_app_len.
-      destruct fuel as [|fuel]; [rewrite Es in *; cbn [length] in *; lia|]. rewrite (Hsp fuel ltac:(rewrite Es in *; cbn [length] in *; lia)). reflexivity.
-    - destruct fuel as [|fuel]; [lia|]. cbn [CommaRewrite.lex app]. change (N.eqb LPAR SPACE) with false. change (N.eqb LPAR LPAR) with true. cbn.
-      destruct fuel as [|fuel]; [cbn [length] in *; lia|]. rewrite (Hsp fuel ltac:(cbn [length] in *; lia)). reflexivity.
-    - destruct fuel as [|fuel]; [lia|]. cbn [CommaRewrite.lex app]. change (N.eqb RPAR SPACE) with false. change (N.eqb RPAR LPAR) with false. change (N.eqb RPAR RPAR) with true. cbn.
-      destruct fuel as [|fuel]; [cbn [length] in *; lia|]. rewrite (Hsp fuel ltac:(cbn [length] in *; lia)). reflexivity.
-    - destruct Ht as ((c & tl & Es & Hc) & Hl & Hf & Hconst). destruct (special_false c Hc) as (H1 & H2 & H3 & H4 & H5).
-      destruct fuel as [|fuel]; [lia|]. cbn [CommaRewrite.lex]. rewrite Es. cbn [app]. rewrite H1, H2, H3, H4, H5.
-      change (c :: tl ++ SPACE :: stext ts) with ((c :: tl) ++ SPACE :: stext ts). rewrite <- Es, (Hl (stext ts)), (Hf (stext ts)), Hconst.
-      destruct (length (repr (op_of tb k))) as [|n] eqn:En; [rewrite Es in En; discriminate|]. rewrite <- En, skipn_app_len.
-      destruct fuel as [|fuel]; [rewrite Es in *; cbn [length] in *; lia|]. rewrite (Hsp fuel ltac:(rewrite Es in *; cbn [length] in *; lia)). reflexivity.
-    - destruct fuel as [|fuel]; [lia|]. cbn [CommaRewrite.lex app].
-      change (N.eqb LBRACE SPACE) with false. change (N.eqb LBRACE LPAR) with false. change (N.eqb LBRACE RPAR) with false.
-      change (N.eqb LBRACE COMMA) with false. change (N.eqb LBRACE LBRACE) with true. cbn match.
-      rewrite <- app_assoc. cbn [app]. rewrite (take_until_brace x _ Ht).
-      replace (skipn (S (length x)) (x ++ RBRACE :: SPACE :: stext ts)) with (SPACE :: stext ts).
-      2:{ clear. induction x as [|c x IHx]; [reflexivity|exact IHx]. }
-      destruct fuel as [|fuel]; [rewrite ?app_length in *; cbn [length] in *; lia|]. rewrite (Hsp fuel ltac:(rewrite ?app_length in *; cbn [length] in *; lia)). reflexivity. }
-  rewrite (Hlex (S (length (stext ts))) ltac:(lia)). apply apply_plain_all.
+  pose proof (stext_len ts HF) as Hlen.
+  pose proof (lex_spaced_app [] ts (S (length (stext ts)) - 2 * length ts) HF) as H. rewrite app_nil_r in H.
+  replace (2 * length ts + (S (length (stext ts)) - 2 * length ts)) with (S (length (stext ts))) in H by lia.
+  rewrite H. destruct (S (length (stext ts)) - 2 * length ts) as [|f] eqn:Ef; [lia|]. cbn [CommaRewrite.lex]. rewrite app_nil_r. apply apply_plain_all.
+Qed.
+
+(* a character at which no token starts, after a readable prefix: the tokenizer reports an error *)
+Definition unknown_start (s : str) : Prop :=
+  match s with
+  | [] => False
+  | c :: _ => special c = false /\ is_literal s = None /\ find_ops tb s = None /\ match_var_name s = None
+  end.
+Theorem tokenize_unknown_char (ts : list (token D)) (s : str) : Forall lexable ts -> unknown_start s ->
+  tokenize C tb is_literal (stext ts ++ s) = Err E_TOKENIZE.
+Proof.
+  intros HF Hs. rewrite (tokenize_factors C tb is_literal).
+  destruct s as [|c tl]; [destruct Hs|]. destruct Hs as (Hc & Hl & Hf & Hv). destruct (special_false c Hc) as (H1 & H2 & H3 & H4 & H5).
+  pose proof (stext_len ts HF) as Hlen.
+  pose proof (lex_spaced_app (c :: tl) ts (S (length (stext ts ++ c :: tl)) - 2 * length ts) HF) as H.
+  replace (2 * length ts + (S (length (stext ts ++ c :: tl)) - 2 * length ts)) with (S (length (stext ts ++ c :: tl))) in H by (rewrite app_length; lia).
+  rewrite H. destruct (S (length (stext ts ++ c :: tl)) - 2 * length ts) as [|f] eqn:Ef; [rewrite app_length in Ef; cbn [length] in Ef; lia|].
+  rewrite lex_cons, H1, H2, H3, H4, H5, Hl, Hf, Hv. rewrite app_nil_r.
+  destruct (apply_plain ts [] (Some E_TOKENIZE) [] 0%Z) as [d' Hp]. rewrite app_nil_r in Hp. rewrite Hp. reflexivity.
+Qed.
+(* a blank text has no tokens *)
+Theorem tokenize_blank (s : str) : forallb (N.eqb SPACE) s = true -> tokenize C tb is_literal s = Ok [].
+Proof.
+  intros H. unfold tokenize.
+  assert (G : forall fuel s0 (rr : list (token D)), length s0 < fuel -> forallb (N.eqb SPACE) s0 = true -> tokenize_go C tb is_literal fuel s0 rr [] 0 = Ok (rev rr)).
+  { induction fuel as [|fuel IH]; intros s0 rr Hl Hb; [lia|]. destruct s0 as [|c tl]; [reflexivity|].
+    cbn [forallb] in Hb. apply andb_prop in Hb. destruct Hb as [Hc Ht]. cbn [tokenize_go]. rewrite N.eqb_sym, Hc. apply IH; [cbn in Hl; lia|exact Ht]. }
+  exact (G _ s [] (Nat.lt_succ_diag_r _) H).
 Qed.
 
 (* ---- the operator condition, from the table: distinct names without a space ---- *)
